@@ -51,7 +51,9 @@ var preludeFuns = map[string]preludeFun{
 	"addDays":    {"addDays", []string{"Int", "Int"}, "Int"},
 	"sprint2":    {"sprint2", []string{"Int", "Str"}, "Str"},
 	"dense1":     {"dense1", []string{"(Array Int Bool)", "Int"}, "Bool"},
+	"dense0":     {"dense0", []string{"(Array Int Bool)", "Int"}, "Bool"},
 	"sprintI":    {"sprintI", []string{"Int"}, "Str"},
+	"sprintII":   {"sprintII", []string{"Int", "Int"}, "Str"},
 	"boolName":   {"boolName", []string{"Bool"}, "Str"},
 }
 
@@ -136,6 +138,13 @@ const prelude = `(declare-sort Str 0)
 (assert (forall ((d (Array Int Bool)) (n Int) (i Int)) (! (=> (dense1 d n) (= (select d i) (and (<= 1 i) (<= i n)))) :pattern ((dense1 d n) (select d i)))))
 (assert (forall ((d (Array Int Bool)) (n Int)) (! (=> (and (dense1 d n) (>= n 0)) (= (ilistN d) n)) :pattern ((dense1 d n)))))
 (assert (forall ((d (Array Int Bool)) (n Int) (j Int)) (! (=> (and (dense1 d n) (<= 0 j) (< j n)) (= (ilistKey d j) (+ j 1))) :pattern ((dense1 d n) (ilistKey d j)))))
+; dense0(d, N): d is exactly the set {0..N-1}; then the sorted listing is the identity (T-schemas)
+(declare-fun dense0 ((Array Int Bool) Int) Bool)
+(declare-fun dense0sk ((Array Int Bool) Int) Int)
+(assert (forall ((d (Array Int Bool)) (n Int)) (! (=> (= (select d (dense0sk d n)) (and (<= 0 (dense0sk d n)) (< (dense0sk d n) n))) (dense0 d n)) :pattern ((dense0 d n)))))
+(assert (forall ((d (Array Int Bool)) (n Int) (i Int)) (! (=> (dense0 d n) (= (select d i) (and (<= 0 i) (< i n)))) :pattern ((dense0 d n) (select d i)))))
+(assert (forall ((d (Array Int Bool)) (n Int)) (! (=> (and (dense0 d n) (>= n 0)) (= (ilistN d) n)) :pattern ((dense0 d n)))))
+(assert (forall ((d (Array Int Bool)) (n Int) (j Int)) (! (=> (and (dense0 d n) (<= 0 j) (< j n)) (= (ilistKey d j) j)) :pattern ((dense0 d n) (ilistKey d j)))))
 `
 
 var symRe = regexp.MustCompile(`\|[^|]*\|`)
